@@ -179,3 +179,10 @@ func isInvalid(err error) bool {
 	}
 	return false
 }
+
+// Comment renders free text as a Coq comment. Coq lexes string literals inside comments, so quotes would have to be
+// balanced: they are replaced, as are comment delimiters.
+func Comment(text string) string {
+	r := strings.NewReplacer("\"", "'", "(*", "( *", "*)", "* )", "\n", " ")
+	return "(* " + r.Replace(text) + " *)"
+}
